@@ -4,7 +4,6 @@
 package decoder
 
 import (
-	"bytes"
 	"fmt"
 	"strings"
 
@@ -78,11 +77,26 @@ func (d *PathDecoder) SignatureAtPos(filename string, pos hcl.Pos) (*lang.Functi
 		}
 
 		if !foundActivePar {
-			recoveredBytes := recoverLeftBytes(file.Bytes, pos, func(byteOffset int, r rune) bool {
-				return r == ',' && byteOffset > lastArgEndPos.Byte
-			})
-			trimmedBytes := bytes.TrimRight(recoveredBytes, " \t\r\n")
-			if string(trimmedBytes) == "," {
+			// Was a comma typed between the last argument and the cursor?
+			// Tokens are inspected rather than bytes, such that blanks,
+			// line breaks and comments (which may contain commas themselves)
+			// around the comma make no difference.
+			commaTyped := false
+			if lastArgEndPos.Byte <= pos.Byte && pos.Byte <= len(file.Bytes) {
+				// lex up to the closing parenthesis where there is one, such that
+				// a comment the cursor is in the middle of is still seen as a comment
+				lexEnd := pos.Byte
+				if closeParen := fNode.CloseParenRange.Start.Byte; closeParen >= pos.Byte && closeParen <= len(file.Bytes) {
+					lexEnd = closeParen
+				}
+				tokens, _ := hclsyntax.LexExpression(file.Bytes[lastArgEndPos.Byte:lexEnd], filename, lastArgEndPos)
+				for _, token := range tokens {
+					if token.Type == hclsyntax.TokenComma && token.Range.End.Byte <= pos.Byte {
+						commaTyped = true
+					}
+				}
+			}
+			if commaTyped {
 				activePar = lastArgIdx + 1
 			} else if passedArgs {
 				// no comma yet, we are still in the slot
